@@ -46,7 +46,7 @@ def run(tier):
     wit = [p for p in progs_ if is_known(p, known)]
     batch = tcommon.drive(r, strict + wit, len(strict), "check_equiv", "check_equiv_reach",
                           "CPython(reference rendering) == GIR(frontend rendering) for all arguments", "lang", [], tier, chunk=6,
-                          langs=LANG_ARG)
+                          langs=LANG_ARG, strict_vocabulary=True)
     # the matrix actually defended
     matrix = {}
     for p in progs_:
